@@ -20,8 +20,9 @@ import SradModel.Drv.Birth
 import SradModel.Drv.Cmd
 import SradModel.Drv.Loop
 import SradModel.Drv.Wire
+import SradModel.Drv.HostCmd
 
-open Srad Srad.Drv Srad.BirthDrv Srad.Drv.CmdD
+open Srad Srad.Drv Srad.BirthDrv Srad.Drv.CmdD Srad.Drv.HostCmdD
 
 structure DState where
   reseq : Reseq.St Nat := Reseq.init
@@ -36,6 +37,7 @@ structure DState where
   birth : BWorld := {}
   cmd : CmdSt := {}
   nodeabs : NodeAbsD := {}
+  hcmd : HcmdSt := {}
 
 def step (st : DState) (line : String) : DState × String :=
   match words line with
@@ -56,6 +58,9 @@ def step (st : DState) (line : String) : DState × String :=
   | "cmd" :: rest =>
     let (c, o) := stepCmd st.cmd rest
     ({ st with cmd := c }, o)
+  | "hcmd" :: rest =>
+    let (c, o) := stepHcmd st.hcmd rest
+    ({ st with hcmd := c }, o)
   | "nodeabs" :: rest =>
     let (n, o) := stepNodeAbs st.nodeabs rest
     ({ st with nodeabs := n }, o)
